@@ -53,6 +53,8 @@ type TodoTruth struct {
 	Decoys     []TodoDecoy
 	Selected   map[string]bool // files with a selected extension
 	Unselected map[string]bool // files with another extension
+	// NamedTwice: selected files that two entries of the filter name (x.d.ts under .ts,.d.ts; an extension listed twice)
+	NamedTwice map[string]bool
 }
 
 // NormTodoMessage: '*' -> blank, runs of white space collapsed, trimmed.
@@ -183,7 +185,11 @@ func CheckTodos(t *TodoTruth, observed []TodoEntry) ([]TodoMismatch, int) {
 		for i, e := range t.Expect {
 			if used[i] && !e.Optional && e.File == ob.File && e.Line == ob.Line && e.Assignee == ob.Assignee && NormTodoMessage(e.Message) == NormTodoMessage(ob.Message) {
 				dup = true
-				add("duplicate/"+e.Kind, "%s:%d comment %q is reported more than once", e.File, e.Line, e.Src)
+				if t.NamedTwice[e.File] {
+					add("duplicate/file-named-by-two-filter-entries", "%s:%d comment %q is reported more than once (two entries of the extension filter name this file)", e.File, e.Line, e.Src)
+				} else {
+					add("duplicate/"+e.Kind, "%s:%d comment %q is reported more than once", e.File, e.Line, e.Src)
+				}
 				break
 			}
 		}
